@@ -160,6 +160,12 @@ impl Prop for C04 {
         for g in crate::huge::huge_cases() {
             v.push(SpCase { g, sources: 1 });
         }
+        // layered graphs of 24..=34 nodes: 3^7 .. 3^10 equally short paths between the ends
+        for n in [24u8, 27, 30, 33, 34] {
+            for kind in [0u8, 1] {
+                v.push(SpCase { g: GraphCase { kind, n, perm: n as u32, shape: 9, edges: vec![], wmode: 0, big_n: 0, big_seed: 0 }, sources: 0b1001 });
+            }
+        }
         // complete graphs of 300 and 520 nodes whose weights follow a law of the positions: a node
         // is strictly improved by hundreds of predecessors in turn (decrease-key counts far beyond
         // anything random weights produce: about ln(degree) there)
